@@ -638,3 +638,71 @@ pub fn record_obj(path: &str, count: usize, seed: u64, force: &str) -> u64 {
 pub fn record_obj(_path: &str, _count: usize, _seed: u64, _force: &str) -> u64 {
     0
 }
+
+// ---------------------------------------------------------------------------
+// C19 I->S at the real scan cap: pair selection on needles of length 0..600
+// under a table of rankers, and the whole with_indices acceptance matrix.
+
+pub fn record_pair(path: &str, count: usize, seed: u64) -> u64 {
+    use memchr::arch::all::packedpair::Pair;
+    let mut f = std::io::BufWriter::new(std::fs::File::create(path).unwrap());
+    let mut r = Rng::new(seed ^ 0x9A12);
+    let mut nrec = 0u64;
+    for i in 0..count {
+        let len = match r.below(6) {
+            0 => r.below(4),
+            1 => 250 + r.below(12),
+            2 => 600,
+            _ => r.below(400),
+        };
+        let n: Vec<u8> = match r.below(4) {
+            0 => vec![b'a'; len],
+            1 => (0..len).map(|k| if k % 2 == 0 { b'a' } else { b'b' }).collect(),
+            2 => (0..len).map(|k| k as u8).collect(),
+            _ => {
+                // common bytes with a rare byte placed around offset 254/255/256
+                let mut v = vec![b'e'; len];
+                if len > 0 {
+                    let p = (250 + r.below(10)).min(len - 1);
+                    v[p] = b'Q';
+                    let p2 = r.below(len);
+                    v[p2] = b'z';
+                }
+                v
+            }
+        };
+        let (_, table) = crate::r_mm::ranker(i, &n, seed.wrapping_add(i as u64));
+        let ranks: Vec<u8> = table.0.to_vec();
+        let sel = Pair::with_ranker(&n, &table);
+        let (none, i1, i2) = match &sel {
+            None => (true, 0i64, 0i64),
+            Some(p) => (false, p.index1() as i64, p.index2() as i64),
+        };
+        let (mut fi1, mut fi2) = (-1i64, -1i64);
+        if let Some(p) = sel {
+            if let Some(fd) = memchr::arch::all::packedpair::Finder::with_pair(&n, p) {
+                fi1 = fd.pair().index1() as i64;
+                fi2 = fd.pair().index2() as i64;
+            }
+            #[cfg(verif_x86)]
+            if let Some(fd) = memchr::arch::x86_64::sse2::packedpair::Finder::with_pair(&n, p) {
+                if fd.pair().index1() as i64 != fi1 || fd.pair().index2() as i64 != fi2 {
+                    fi1 = fd.pair().index1() as i64;
+                    fi2 = fd.pair().index2() as i64;
+                }
+            }
+        }
+        writeln!(f, "{}", json!({"k": "ranker", "n": n, "rank": ranks, "none": none, "i1": i1, "i2": i2, "fi1": fi1, "fi2": fi2})).unwrap();
+        nrec += 1;
+    }
+    for &len in &[0usize, 1, 2, 3, 254, 255, 256, 600] {
+        let n = vec![b'x'; len];
+        for a in 0..=255u8 {
+            let acc: Vec<u8> = (0..=255u8).filter(|&b| Pair::with_indices(&n, a, b).map_or(false, |p| p.index1() == a && p.index2() == b)).collect();
+            writeln!(f, "{}", json!({"k": "indices", "len": len, "a": a, "acc": acc})).unwrap();
+            nrec += 1;
+        }
+    }
+    f.flush().unwrap();
+    nrec
+}
